@@ -13,7 +13,7 @@ import tempfile
 import time
 from fractions import Fraction
 
-VERIF = "/verif"
+VERIF = os.environ.get("VERIF_HOME", "/verif")
 COQ = os.path.join(VERIF, "coq")
 REPO = os.environ.get("VERIF_REPO", "/repo")
 PY = "/venv/bin/python"
@@ -189,7 +189,7 @@ def proof_step(prop: str, thorough=False) -> dict:
 
 
 # ------------------------------------------------------------------ cases evaluated inside Coq
-def run_cases(prop: str, imports: str, case_terms: list[str], run_fn: str = "run", chunk=300, timeout=900):
+def run_cases(prop: str, imports: str, case_terms: list[str], run_fn: str = "run", chunk=300, timeout=900, nlists=None):
     """Writes cases_<k>.v files 'Definition cases := [...]. Eval vm_compute in (run cases).' and compiles
     them in parallel.  [run_fn] must return (list N * list N): indices failing the correspondence and
     indices failing the direct oracle.  Returns (corr_fail_indices, oracle_fail_indices)."""
@@ -221,18 +221,29 @@ def run_cases(prop: str, imports: str, case_terms: list[str], run_fn: str = "run
         if p.returncode != 0:
             raise HarnessError(f"cases file {fn} did not evaluate (rc={p.returncode}):\n{(out + err)[-2000:]}")
         results[k] = out
-    corr, orac = [], []
+    lists = None
     for k, out in sorted(results.items()):
         flat = re.sub(r"\s+", "", out)
-        m = re.search(r"=\(\[(.*?)\],\[(.*?)\]\):", flat)
+        m = re.search(r"=\((\[.*\])\):", flat)
         if not m:
             raise HarnessError(f"cannot parse Coq output for chunk {k}: {out[-500:]}")
-        for grp, acc in ((m.group(1), corr), (m.group(2), orac)):
+        groups = re.findall(r"\[(.*?)\]", m.group(1))
+        if lists is None:
+            lists = [[] for _ in groups]
+        if len(groups) != len(lists):
+            raise HarnessError(f"inconsistent Coq output for chunk {k}: {out[-500:]}")
+        for grp, acc in zip(groups, lists):
             for tok in grp.split(";"):
                 tok = tok.replace("%N", "")
                 if tok:
                     acc.append(k + int(tok))
-    return corr, orac
+    if lists is None:
+        lists = [[], []]
+    if nlists is None:
+        return lists[0], lists[1]
+    if len(lists) != nlists:
+        raise HarnessError(f"expected {nlists} index lists from Coq, got {len(lists)}")
+    return tuple(lists)
 
 
 # ------------------------------------------------------------------ implementation drivers
